@@ -64,6 +64,25 @@ def Equil.net (e : Equil α) (k : String) : Int :=
 /-- `self.prod.get(key, 0) - self.reac.get(key, 0)` as used by `__add__` (inactive parts ignored) -/
 def Equil.activeNet (e : Equil α) (k : String) : Int := (get e.prod k : Int) - (get e.reac k : Int)
 
+/-- every listed coefficient (active and inactive) is positive -/
+def Equil.Positive (e : Equil α) : Prop :=
+  ∀ kv, kv ∈ e.reac ++ e.prod ++ e.inactReac ++ e.inactProd → 0 < kv.2
+
+/-- no inactive parts (the operands the property quantifies over: `__add__` does not carry them) -/
+def Equil.NoInact (e : Equil α) : Prop := e.inactReac = [] ∧ e.inactProd = []
+
+/-- netted form of the sum of `a` and `b` (what the property demands of `a + b`): every listed
+    coefficient positive, no key on both sides, a key is listed exactly on the side given by the sign
+    of its net coefficient (cancelled keys nowhere), each key listed once, no inactive parts -/
+structure NettedSum (a b r : Equil α) : Prop where
+  positive : r.Positive
+  disjoint : ∀ k, ¬ (k ∈ keysOf r.reac ∧ k ∈ keysOf r.prod)
+  cancelled : ∀ k, a.activeNet k + b.activeNet k = 0 → k ∉ keysOf r.reac ∧ k ∉ keysOf r.prod
+  listed : ∀ k, (k ∈ keysOf r.reac ↔ a.activeNet k + b.activeNet k < 0) ∧
+                (k ∈ keysOf r.prod ↔ 0 < a.activeNet k + b.activeNet k)
+  nodup : (keysOf r.reac).Nodup ∧ (keysOf r.prod).Nodup
+  noInact : r.NoInact
+
 /-- `check_any_effect`: `any(self.net_stoich(self.keys()))` -/
 def Equil.anyEffect (e : Equil α) : Bool := e.keys.any (fun k => e.net k != 0)
 
@@ -111,13 +130,17 @@ def powInt [Mul α] [Inv α] [NatCast α] [DecidableEq α] (x : α) (n : Int) : 
 section ops
 variable [Mul α] [Inv α] [NatCast α] [DecidableEq α]
 
+/-- `param = None if self.param is None else self.param ** other` (l. 1196) -/
+def rmulParam (n : Int) (K : Option α) : Except String (Option α) :=
+  match K with
+  | none => pure none
+  | some k => do let p ← powInt k n; pure (some p)
+
 /-- `Equilibrium.__rmul__` (l. 1189-1212) for an `int` `other`: `param ** other` first, then the
     containers scaled by `|other|`, sides swapped for `other < 0`, then the constructor
     (which raises `ValueError` for `other = 0`: no net effect is left). -/
 def rmul (n : Int) (e : Equil α) : Except String (Equil α) := do
-  let param ← (match e.K with
-    | none => pure none
-    | some k => do let p ← powInt k n; pure (some p))
+  let param ← rmulParam n e.K
   let m := n.natAbs
   let reac := scale m e.reac
   let prod := scale m e.prod
@@ -142,18 +165,27 @@ def addKeys (a b : Equil α) : List String :=
 /-- `n` of `__add__` (l. 1228-1233) -/
 def addN (a b : Equil α) (k : String) : Int := a.activeNet k + b.activeNet k
 
+/-- the `reac` dict built by `__add__`: keys with negative net coefficient, value `-n` -/
+def addReac (a b : Equil α) : Stoich :=
+  (addKeys a b).filterMap (fun k => if addN a b k < 0 then some (k, (-(addN a b k)).toNat) else none)
+
+/-- the `prod` dict built by `__add__`: keys with positive net coefficient -/
+def addProd (a b : Equil α) : Stoich :=
+  (addKeys a b).filterMap (fun k => if 0 < addN a b k then some (k, (addN a b k).toNat) else none)
+
+/-- `param` of `__add__` (l. 1240-1243): both `None` → `None`, one `None` → `TypeError` (`x * None`) -/
+def addParam (x y : Option α) : Except String (Option α) :=
+  match x, y with
+  | none, none => pure none
+  | some x, some y => pure (some (x * y))
+  | _, _ => .error "TypeError"
+
 /-- `Equilibrium.__add__` (l. 1220-1244): per key the net coefficient goes to `reac` (negative),
-    `prod` (positive) or nowhere (zero); `param` is the product (both `None` → `None`, one `None` →
-    `TypeError`); inactive parts are not carried; then the constructor. -/
+    `prod` (positive) or nowhere (zero); `param` is the product; inactive parts are not carried;
+    then the constructor. -/
 def add (a b : Equil α) : Except String (Equil α) := do
-  let ks := addKeys a b
-  let reac : Stoich := ks.filterMap (fun k => if addN a b k < 0 then some (k, (-(addN a b k)).toNat) else none)
-  let prod : Stoich := ks.filterMap (fun k => if 0 < addN a b k then some (k, (addN a b k).toNat) else none)
-  let param ← (match a.K, b.K with
-    | none, none => pure none
-    | some x, some y => pure (some (x * y))
-    | _, _ => .error "TypeError")
-  construct true reac prod param [] []
+  let param ← addParam a.K b.K
+  construct true (addReac a b) (addProd a b) param [] []
 
 /-- `Equilibrium.__sub__`: `self + -1 * other` -/
 def sub (a b : Equil α) : Except String (Equil α) := do
